@@ -97,6 +97,10 @@ def boxSetBranch (order : List String) (kw : List String) : Option (Option Strin
 
 /-- `Box.vects = v`: copy the numbers in, zero the near-zero terms, drop the cached reciprocal vectors (`CSys.setVects`). -/
 def setVectsSteps : List String := ["write", "clean", "dropCache"]
+/-- `System.pbc`: the getter hands out the stored array (an in-place edit of what it returned is an edit of the setting:
+    `Op.editPbc`); the setter converts to a bool array, asserts shape (3,), stores (`Op.setPbc`). -/
+def pbcGetterSteps : List String := ["returnInternal"]
+def pbcSetterSteps : List String := ["asarrayBool", "assertShape3", "store"]
 /-- `Box.origin = o`: copy the numbers in, nothing else (`CSys.setOrigin` keeps the cache). -/
 def setOriginSteps : List String := ["write"]
 /-- what each branch of `Box.set` does: `vects=` assigns through both setters, the others call the `set_*` of their family. -/
@@ -125,6 +129,9 @@ def transformOKWith (nt ot : Rat) (pairs : List (Nat × Nat)) (t : M3 Rat) : Boo
     to [-1, 1], `180 * arccos / pi`). -/
 def atomsPropPin : String := "9271231b066e1c310120"
 def vectAngleTailPin : String := "ac590e696a7fbe5959e5"
+
+/-- the clamp in the (pinned) tail of `vect_angle`: `cosine < -1 → -1`, `cosine > 1 → 1`. -/
+def clampCos [LT K] [DecidableLT K] [Neg K] [One K] (c : K) : K := if c < -1 then -1 else if 1 < c then 1 else c
 
 /-- `vect.T / norm` of `vect_angle` for one vector. -/
 @[inline] def vdiv [Div K] (v : V3 K) (n : K) : V3 K := ⟨v.x / n, v.y / n, v.z / n⟩
